@@ -199,3 +199,21 @@ pub fn cmd_print(o: &Opts) -> Result<(), String> {
     }
     Ok(())
 }
+
+/// --asts F --texts F --out-pats F --out-texts F : raw pattern strings and raw texts (UTF-8 JSON) for helper binaries
+pub fn cmd_raw(o: &Opts) -> Result<(), String> {
+    let mut f = std::io::BufWriter::new(std::fs::File::create(o.get("out-pats")?).map_err(|e| e.to_string())?);
+    for a in read_ndjson(o.get("asts")?)? {
+        let pat = to_pattern(&a["ast"]);
+        let mut rec = a.clone();
+        let m = rec.as_object_mut().unwrap();
+        m.insert("pat".into(), json!(ascii(&pat)));
+        m.insert("raw".into(), json!(pat));
+        writeln!(f, "{}", rec).map_err(|e| e.to_string())?;
+    }
+    let mut f = std::io::BufWriter::new(std::fs::File::create(o.get("out-texts")?).map_err(|e| e.to_string())?);
+    for t in load_texts(o.get("texts")?)? {
+        writeln!(f, "{}", json!({"raw": t})).map_err(|e| e.to_string())?;
+    }
+    Ok(())
+}
